@@ -69,13 +69,17 @@ class Location(object):
         >>> Location(StringIO("some text"), has_column=True)
         <io> (1;1)
         """
-        assert file_path
+        assert file_path is not None
         if isinstance(file_path, str):
+            assert file_path
             self.file_path = file_path
         else:
-            try:
-                self.file_path = file_path.name
-            except AttributeError:
+            # NOTE: Streams might have no name at all, or one that is no text, for example None for a
+            #  tempfile.SpooledTemporaryFile or the number of the file descriptor for open(fd).
+            stream_name = getattr(file_path, "name", None)
+            if isinstance(stream_name, str) and stream_name:
+                self.file_path = stream_name
+            else:
                 self.file_path = "<io>"
         self._line = 0
         self._column = 0
